@@ -16,7 +16,8 @@ FAMILIES = ["same-seqnum-top", "newest-unrecoverable", "healthy", "newest-plus-s
             "old-and-new", "corrupt-deep", "newest-plus-recoverable-extras", "corrupt-invalid", "random",
             "same-seqnum-lower", "same-seqnum-top", "newest-unrecoverable", "newest-plus-stale-extras", "old-and-new",
             "corrupt-deep", "newest-plus-recoverable-extras", "random", "unreachable", "corrupt-duplicate",
-            "corrupt-newest-complete-older", "corrupt-privkey", "corrupt-privkey"]
+            "corrupt-newest-complete-older", "corrupt-privkey", "corrupt-privkey",
+            "same-seqnum-top-plus-older"]
 MAX_STEPS = 3000      # scheduler steps per operation (a check/repair here needs a few hundred): a client that loops
 #                       forever (see C10 read-never-completes) must not stall the run
 INVALID_KINDS = ["hdr"]                       # signed fields edited: every survey drops the share
@@ -243,6 +244,9 @@ class History(object):
         top_forks = [i for i in forks if V[i]["fork_of"] == newest]
         low_forks = [i for i in forks if V[i]["fork_of"] != newest]
         rng.shuffle(holders)
+        plus_older = False
+        if fam == "same-seqnum-top-plus-older":
+            fam, plus_older = "same-seqnum-top", True
         if fam in ("same-seqnum-top", "same-seqnum-lower") and not (top_forks if fam == "same-seqnum-top" else low_forks):
             fam = "random"
         if fam in ("newest-unrecoverable", "old-and-new") and newest == 0:
@@ -341,6 +345,15 @@ class History(object):
             half = rng.randint(1, max(1, len(holders) - 1))
             for n_, idx in enumerate(holders):
                 states[idx] = ("v", newest) if n_ < half else ("v", f)
+            if plus_older and newest >= 1:
+                # a third, older version recoverable as well (complete copies as additional share files)
+                other = rng.randrange(newest)
+                for owner, d in V[other]["snap"].items():
+                    for sh in d:
+                        cands = [vs.index for vs in self.g.servers
+                                 if sh not in V[newest]["snap"].get(vs.index, {}) and (vs.index, sh) not in extras]
+                        if cands:
+                            extras[(rng.choice(cands), sh)] = other
         elif fam == "same-seqnum-lower":
             f = rng.choice(low_forks)
             j = V[f]["fork_of"]
@@ -924,3 +937,7 @@ class History(object):
 #   c14-recoverable-reported-always              caught  recoverable-reported-but-file-is-unrecoverable
 # History: healthy-reported-although-the-verifier-listed-corrupt-shares was fixed in /repo; known finding that remains:
 #   healthy-reported-with-an-unverified-corrupt-copy-of-a-duplicated-share-number
+#   seeded/C14-5 (verify skips private keys after the first good one)   caught  healthy-reported-with-a-corrupt-private-key-the-verifier-did-not-check  (family corrupt-privkey)
+#   seeded/C14-4 (needs_merge looks at the two lowest versions)          caught  unforced-repair-proceeds-despite-same-seqnum-competitors  (family same-seqnum-top-plus-older)
+# Genuine on the tree as of this change (diffs handed to the lead): healthy-reported-verify-finished-before-the-private-key-verdict,
+#   post-repair-results-unhealthy-although-the-repaired-file-is-healthy
